@@ -94,6 +94,7 @@ Definition set_fplace (f : file) (det : bool) (cr : option N) : file :=
   mkFile (f_key f) (f_label f) (f_state f) det cr (f_hash f).
 Definition set_oplace (o : onode) (det : bool) (cr : option N) : onode := mkOnode (o_key o) det cr.
 
+Definition ocreator_is_key (o : option N) (k : N) : bool := match o with Some c => c =? k | None => false end.
 Definition find_step (g : graph) (k : N) : option step := find (fun s => s_key s =? k) (g_steps g).
 Definition find_file (g : graph) (k : N) : option file := find (fun f => f_key f =? k) (g_files g).
 
@@ -655,6 +656,52 @@ Definition revert_optional (g : graph) : graph * list (N * bool) :=
                          if snd kb then set_file_state acc (fst kb) revert_file_state false else acc)
                       q g1 in
   (g2, q).
+
+(* ------------------------------------------------------------------------------------------ *)
+(* A new director run with other targets: Scheduler.initialize + Workflow.reconcile_targets   *)
+(* ------------------------------------------------------------------------------------------ *)
+
+(* the temp tables target_path / target_dir and the threshold are rebuilt from the command line *)
+Definition set_targets (g : graph) (ts : list str) (tds : list (str * str)) (thr : N) : graph :=
+  mkGraph (g_steps g) (g_files g) (g_others g) (g_deps g) ts tds (g_avail g) thr.
+
+(* reconcile_targets, the path that does not raise; its three parts are generated facts
+   (GenSched.reconcile_parts: which of them the repository's function has):
+   1. UPDATE step SET _check_after = 1 WHERE _implied_need = TARGET        (stale elevations)
+   2. for every exact target that is an attached file in a state a target may have: flag its creator
+   3. RECONCILE_TARGET_DIRS: flag the producers of the regular outputs inside a directory target *)
+Definition reconcile_stale (g : graph) : list N :=
+  map s_key (filter (fun s => s_ineed s =? reconcile_stale_need) (g_steps g)).
+Definition find_attached_file (g : graph) (label : str) : option file :=
+  find (fun f => str_eqb (f_label f) label && negb (f_detached f)) (g_files g).
+Definition reconcile_exact (g : graph) : list N :=
+  flat_map (fun t => match find_attached_file g t with
+                     | Some f => if mem_N (f_state f) target_forbidden_states then []
+                                 else match f_creator f with Some c => [c] | None => [] end
+                     | None => []
+                     end) (g_targets g).
+Definition reconcile_dirs (g : graph) : list N :=
+  flat_map (fun f => if regular_output f && in_tdir g f then producers_of_node g (f_key f) else [])
+           (g_files g).
+Definition reconcile_keys (parts : bool * bool * bool) (g : graph) : list N :=
+  (if fst (fst parts) then reconcile_stale g else [])
+  ++ (if snd (fst parts) then reconcile_exact g else [])
+  ++ (if snd parts then reconcile_dirs g else []).
+Definition reconcile_with (parts : bool * bool * bool) (g : graph) : graph :=
+  flag_keys FAfter (reconcile_keys parts g) g.
+Definition reconcile : graph -> graph := reconcile_with reconcile_parts.
+
+(* hypotheses of the soundness theorem, decidable (checked on every real snapshot at a reconcile) *)
+Definition labels_unique_b (g : graph) : bool :=
+  forallb (fun f1 => forallb (fun f2 => f_detached f1 || f_detached f2 || negb (str_eqb (f_label f1) (f_label f2))
+                                        || (f_key f1 =? f_key f2)) (g_files g)) (g_files g).
+(* an output (a file with an edge from a step) is created by its producer and is not in a static state *)
+Definition outinv_b (g : graph) : bool :=
+  forallb (fun d => match find_step g (d_src d), find_file g (d_snk d) with
+                    | Some _, Some f => ocreator_is_key (f_creator f) (d_src d)
+                                        && negb (mem_N (f_state f) static_file_states)
+                    | _, _ => true
+                    end) (g_deps g).
 
 (* ------------------------------------------------------------------------------------------ *)
 (* tui._normalize_targets: classification by the trailing separator only                      *)
